@@ -380,13 +380,19 @@ func genC01(e *emitter, tier string, seed uint64) map[string]interface{} {
 			roundtripCase(e, p, 0, true, "unknown-type")
 		}
 	}
-	// the 2^24 boundary (thorough): 2^24-1 fits, 2^24 does not; compressed form decides when gzip is engaged
-	if thorough {
+	// the 2^24 boundary: 2^24-1 fits, 2^24 does not; compressed form decides when gzip is engaged (the quick tier plays the two compressed
+	// cases on either side of the limit: a body of exactly 2^24-1 bytes and one of 2^24 bytes, whose compressed forms both fit)
+	{
+		type bcase struct {
+			n, thr int
+			kind   string
+		}
+		cases := []bcase{{maxBody, 1, "rep"}, {maxBody + 1, 1, "rep"}}
+		if thorough {
+			cases = []bcase{{maxBody, 0, "rep"}, {maxBody, 1, "rep"}, {maxBody + 1, 0, "rep"}, {maxBody + 1, 1, "rep"}, {maxBody, 1, "prng"}, {maxBody - 1, 0, "prng"}, {maxBody + 100, 1024, "rep"}}
+		}
 		for _, version := range []int{1, 2} {
-			for _, c := range []struct {
-				n, thr int
-				kind   string
-			}{{maxBody, 0, "rep"}, {maxBody + 1, 0, "rep"}, {maxBody + 1, 1, "rep"}, {maxBody, 1, "prng"}, {maxBody - 1, 0, "prng"}, {maxBody + 100, 1024, "rep"}} {
+			for _, c := range cases {
 				p := mk(version, types[rg.intn(3)], rg.intn(2) == 0, 1, 0)
 				if c.kind == "rep" {
 					p.body = bspec{kind: "rep", b: byte(rg.intn(256)), n: c.n}
@@ -409,6 +415,51 @@ func genC01(e *emitter, tier string, seed uint64) map[string]interface{} {
 					roundtripCase(e, p, thr, true, fmt.Sprintf("v%d/body-looks-like-gzip", version))
 				}
 			}
+		}
+	}
+	// one v2 packet packed, edited and packed again (the way a relay or a retry edits the exported metadata map: index assignment, delete,
+	// add, the map replaced): the second frame carries the packet as it is NOW — nothing remembered from the first Pack
+	for i := 0; i < 24*reps; i++ {
+		p := mk(2, types[rg.intn(3)], rg.intn(2) == 0, 2+rg.intn(3), rg.pick([]int{0, 5, 300}))
+		pk := p.build(protocol.CodecProtobuf)
+		ctx := newCtx(2, protocol.CodecProtobuf)
+		if _, err := proto(2).Pack(ctx, pk); err != nil {
+			continue
+		}
+		keys := sortedKeys(pk.Metadata.Values)
+		step := "none"
+		if len(keys) > 0 {
+			switch i % 4 {
+			case 0:
+				pk.Metadata.Values[keys[0]] = string(bytes.Repeat([]byte{'Z'}, len(pk.Metadata.Values[keys[0]])))
+				step = "overwrite-same-length"
+			case 1:
+				pk.Metadata.Values[keys[len(keys)-1]] = "other-value"
+				step = "overwrite"
+			case 2:
+				delete(pk.Metadata.Values, keys[0])
+				pk.Metadata.Values["added"] = "x"
+				step = "delete+add"
+			case 3:
+				nm := map[string]string{"replaced": "yes"}
+				for k, v := range pk.Metadata.Values {
+					nm[k] = v
+				}
+				pk.Metadata.Values = nm
+				step = "replace-map"
+			}
+		}
+		pk.Body = append([]byte{}, p.body.bytes()...)
+		fresh := p.build(protocol.CodecProtobuf)
+		fresh.Metadata.Values = map[string]string{}
+		for k, v := range pk.Metadata.Values {
+			fresh.Metadata.Values[k] = v
+		}
+		wantFrame, errW := proto(2).Pack(newCtx(2, protocol.CodecProtobuf), fresh)
+		frame, err := proto(2).Pack(ctx, pk)
+		idx := e.op(fmt.Sprintf("gz.note repack step=%s", step), "ok", "repack", true)
+		if (err == nil) != (errW == nil) || !bytes.Equal(frame, wantFrame) {
+			e.fail(idx, "roundtrip_oneshot:v2+md", fmt.Sprintf("a packet packed, edited (%s) and packed again gives (err=%v) %s; a fresh packet with the same fields and the current metadata map %s gives (err=%v) %s", step, err, showBytes(frame), showMap(pk.Metadata.Values), errW, showBytes(wantFrame)))
 		}
 	}
 	// outside the domain: model and code must still agree (no property claim): cmd > 255, signature != 16 bytes, gzip preset
